@@ -111,6 +111,10 @@ def Bundle.trash (b : Bundle) : Bundle :=
 def Bundle.packAt (b : Bundle) : Nat → LoadSt
   | 0 => b.pack
   | j + 1 => b.more.getD j LoadSt.missing
+/-- `IndexAndPacks::load_index` on a multi-pack index whose file is loaded builds the list of its packs anew:
+every pack is `Unloaded` again (packs that were open are dropped and re-opened on demand) -/
+def Bundle.resetPacks (b : Bundle) : Bundle :=
+  { b with pack := LoadSt.unloaded, more := b.more.map fun _ => LoadSt.unloaded }
 def Bundle.setPackAt (b : Bundle) (j : Nat) (st : LoadSt) : Bundle :=
   match j with
   | 0 => { b with pack := st }
@@ -408,9 +412,11 @@ def step (s : Sys) : Ev → Option Sys
         match sl.files with
         | none => some s
         | some b =>
-          if b.idx.isLoaded then some s
+          if b.idx.isLoaded then
+            if b.multi && b.idx == LoadSt.loaded then some (s.setSlot k { sl with files := some b.resetPacks })
+            else some s
           else if onDisk s.disk b.file then
-            some (s.setSlot k { sl with files := some { b with idx := LoadSt.loaded } })
+            some (s.setSlot k { sl with files := some { (if b.multi then b.resetPacks else b) with idx := LoadSt.loaded } })
           else some (s.setSlot k { sl with files := some { b with idx := LoadSt.missing } })
     else none
   | Ev.consBegin h =>
